@@ -252,9 +252,9 @@ out:
 
 
 /* ------------------------------------------------------------------ GET through the server
- *   get <mode> { table ops }  F <query>  { B <szx> }*
+ *   get <mode> { table ops }  { F <query> }*  { B <szx> }*
  * <mode> 0: context block mode 0 (default), 1: COAP_BLOCK_USE_LIBCOAP.  <query>: "~" no
- * Uri-Query option, else one Uri-Query option with these bytes.
+ * Uri-Query option, else one Uri-Query option with these bytes (several F: several options).
  * A server endpoint is bound to 127.0.0.1:0; the harness is the client and speaks raw CoAP over a
  * connected UDP socket: one GET without Block2, then for each B <szx> a block-wise GET starting
  * with Block2 = 0/0/szx and continuing (with the size the server answers with) until More is
@@ -277,6 +277,11 @@ static uint16_t g_mid = 0x1000;
 static uint16_t g_tok = 1;
 
 /* one request/response; with_block < 0: no Block2 option. returns response length or -1 */
+#define MAXQ 8
+static uint8_t *g_q[MAXQ];
+static size_t g_qn[MAXQ];
+static int g_nq;
+
 static ssize_t exchange(int fd, const uint8_t *q, size_t qn, int has_q, int with_block,
                         unsigned num, unsigned szx, uint8_t *resp, size_t cap) {
   uint8_t req[2048];
@@ -289,7 +294,8 @@ static ssize_t exchange(int fd, const uint8_t *q, size_t qn, int has_q, int with
   req[n++] = (uint8_t)(g_tok >> 8); req[n++] = (uint8_t)g_tok;
   n += put_opt(req + n, 11, (const uint8_t *)".well-known", 11);
   n += put_opt(req + n, 0, (const uint8_t *)"core", 4);
-  if (has_q) n += put_opt(req + n, 4, q, qn);
+  (void)q; (void)qn;
+  for (int k = 0; k < g_nq; k++) n += put_opt(req + n, k ? 0 : 4, g_q[k], g_qn[k]);
   if (with_block >= 0) {
     uint8_t bv[3];
     unsigned long v = ((unsigned long)num << 4) | szx;
@@ -396,8 +402,13 @@ static void run_get(int i) {
   if (getsockname(ep->sock.fd, (struct sockaddr *)&sa, &sl) < 0) { puts("ERROR getsockname"); return; }
   fd = socket(AF_INET, SOCK_DGRAM, 0);
   if (fd < 0 || connect(fd, (struct sockaddr *)&sa, sizeof(sa)) < 0) { puts("ERROR client socket"); return; }
-  if (i < vntok && !strcmp(vtok[i], "F")) {
-    if (strcmp(vtok[i + 1], "~")) { q = bytes_of_tok(vtok[i + 1], &qn); has_q = 1; }
+  g_nq = 0;
+  while (i + 1 < vntok && !strcmp(vtok[i], "F")) {
+    if (strcmp(vtok[i + 1], "~") && g_nq < MAXQ) {
+      g_q[g_nq] = bytes_of_tok(vtok[i + 1], &g_qn[g_nq]);
+      g_nq++;
+      has_q = 1;
+    }
     i += 2;
   }
   code = fetch(fd, q, qn, has_q, -1, &body, &bn, bad, sizeof(bad));
@@ -422,6 +433,8 @@ static void run_get(int i) {
 out:
   close(fd);
   free(q);
+  for (int k = 0; k < g_nq; k++) free(g_q[k]);
+  g_nq = 0;
 }
 
 int main(void) {
